@@ -191,6 +191,7 @@ type sxSpec struct {
 	expNs   int64
 	skipMI  bool
 	shared  bool // sign through the long-lived Signer object (fields updated in place between exchanges)
+	rawVURL bool // hand vURL to the signer verbatim (a spelling url.Parse would normalise: upper-case scheme, empty fragment)
 }
 
 // one Signer object used for many exchanges, its certificate / key / times replaced between them
@@ -241,6 +242,9 @@ func signEx(r *signedEx, sp *sxSpec, kc *keyCert, alg verifapi.SigningAlgorithm)
 	e := r.e
 	cu, _ := url.Parse(sp.certURL)
 	vu, _ := url.Parse(sp.vURL)
+	if sp.rawVURL {
+		vu = &url.URL{Opaque: sp.vURL} // String() returns the text as it is: what a foreign signer may have written
+	}
 	if sp.shared {
 		r.signer = sharedSigner
 		r.signer.Date, r.signer.Expires, r.signer.Certs = time.Unix(sp.date, sp.dateNs), time.Unix(sp.expires, sp.expNs), kc.certs
